@@ -26,9 +26,10 @@ Oracles (implementation only): builder -> parser round trip; rebuild -> reparse 
 message and h11 accepts it with the same decoded body; decode(to_chunks(b, n)) == b; an
 independent RFC 7230 §4.1 chunked decoder agrees with ChunkParser on every valid stream;
 update_body keeps the message well-formed and decodable to the new body.
-Open findings D22 (trailers), D23 (update_body on chunked message double-encodes), D24
-('//' path does not survive rebuild + reparse) are judged only while known_findings.json
-lists them as open for C15 (checked at import time).
+Open findings D22 (trailers) and D24 ('//' path does not survive rebuild + reparse) are judged only
+while known_findings.json lists them as open for C15 (checked at import time).  D23 (update_body on
+a chunked message was chunk-encoded twice by build()) is fixed (4312341): that class is inside the
+oracle's domain unconditionally.
 """
 import os
 import re
@@ -66,12 +67,13 @@ THEOREMS = [
     'Px.Codec.C15_update_body_plain_resp',
     'Px.Codec.C15_update_body_headers',
     'Px.Codec.C15_update_body_gzip',
-    'Px.Codec.C15_update_body_chunked_partial',
+    'Px.Codec.C15_update_body_chunked',
+    'Px.Codec.C15_update_body_chunked_resp',
+    'Px.Codec.C15_update_body_chunked_example',
     'Px.Codec.C15_wf_pkt',
     'Px.Codec.C15_wf_toChunks',
     'Px.Codec.C15_rebuild_wf',
     'Px.Codec.C15_witness_D22',
-    'Px.Codec.C15_witness_D23',
     'Px.Codec.C15_witness_D24',
 ]
 RULE = ('mkreq/mkres/mkpkt: argument tuples (methods, targets, versions, status codes, reasons None/empty/text, '
@@ -666,7 +668,7 @@ def _raw_is_chunked(raw):
     return False
 
 
-def is_d23_class(case):
+def is_chunked_upd(case):
     return case['kind'] == 'upd' and _raw_is_chunked(b''.join(bytes.fromhex(s) for s in case['segs']))
 
 
@@ -732,8 +734,6 @@ def in_quantifier(case):
     if k == 'upd':
         if not case.get('inq'):
             return False
-        if is_d23_class(case):
-            return 'D23' in OPEN
         return True
     return False
 
@@ -1099,8 +1099,6 @@ def classify(case, sig):
     """id of the open finding that covers exactly this failing class"""
     if sig == 'decoder-disagrees-with-reference-on-trailers' and is_d22_class(case):
         return 'D22'
-    if sig == 'rebuilt-body-doubly-chunk-encoded' and is_d23_class(case):
-        return 'D23'
     if sig == 'rebuilt-request-reparses-differently' and is_d24_class(case):
         return 'D24'
     return None
@@ -1109,8 +1107,6 @@ def classify(case, sig):
 def finding_witnesses():
     return {
         'D22': _chunk_case(b'5\r\nhello\r\n0\r\nTrailer: v\r\n\r\n', b''),
-        'D23': _upd_case('REQ', [b'POST / HTTP/1.1\r\nTransfer-Encoding: chunked\r\n\r\n5\r\nhello\r\n0\r\n\r\n'],
-                         b'NEWBODY', b'text/plain', True),
         'D24': _rebuild_case('REQ', [b'GET http://h//x HTTP/1.1\r\n\r\n'], True),
     }
 
@@ -1449,6 +1445,11 @@ def corpus():
             cs.append(_upd_case(ty, [_with_header(m, b'Content-Encoding: gzip')], b'NEWBODY' * 9, b'application/json',
                                 True))
             cs.append(_upd_case(ty, [_with_header(m, b'Content-Encoding: br')], b'', b'', True))
+    # the former D23 witness (fixed by 4312341): must decode to NEWBODY after rebuild
+    cs.append(_upd_case('REQ', [b'POST / HTTP/1.1\r\nTransfer-Encoding: chunked\r\n\r\n5\r\nhello\r\n0\r\n\r\n'],
+                        b'NEWBODY', b'text/plain', True))
+    cs.append(_upd_case('RES', [b'HTTP/1.1 200 OK\r\nContent-Encoding: gzip\r\nTransfer-Encoding: chunked\r\n\r\n0\r\n\r\n'],
+                        b'NEWBODY' * 30, b'text/plain', True))
     cs.append(_upd_case('RES', [b'HTTP/1.1 200 OK\r\n\r\n'], b'x', b'a/b', True))
     cs.append(_upd_case('REQ', [b'GET / HTTP/1.1\r\nConte'], b'x', b'a/b', False))
     # sequences: compressed okResponse with conn_close, then default, then no_cl (headers None throughout);
@@ -1558,7 +1559,7 @@ def describe(case):
     elif k == 'chunk':
         out.append('chunk d22class=%d' % is_d22_class(case))
     elif k == 'upd':
-        out.append('upd d23class=%d' % is_d23_class(case))
+        out.append('upd chunked=%d' % is_chunked_upd(case))
     elif k == 'seq':
         out.append('seq calls=%d shared=%d' % (len(case['calls']), sum(c.get('h') == 'shared' for c in case['calls'])))
         out.append('seq fns=' + '+'.join(sorted({c['fn'] for c in case['calls']})))
